@@ -246,13 +246,13 @@ func runSys(cfg *runCfg, g *gen, n int) (cases []string, dist map[string]int, fa
 				opsets[i] = valid
 			}
 			stubs[i].mu.Lock()
-			stubs[i].sc, stubs[i].onlyOp, stubs[i].notes = scripts[i], op, nil
+			stubs[i].sc, stubs[i].onlyOp, stubs[i].notes, stubs[i].token = scripts[i], op, nil, fmt.Sprintf("s%d", k)
 			stubs[i].mu.Unlock()
 			name, omit := g.cfgName()
 			if useINI {
 				name, omit = fmt.Sprintf("p%c", 'a'+i), false // section names are keys in the legacy format
 			}
-			entries = append(entries, cfgEntry{name: name, omitName: omit, addr: "http://" + stubs[i].addr, ops: valid})
+			entries = append(entries, cfgEntry{name: name, omitName: omit, addr: "http://" + stubs[i].addr, path: fmt.Sprintf("/handler/s%d", k), ops: valid})
 		}
 		sysUserConnTimeout = 10
 		if slowCase {
@@ -479,7 +479,7 @@ func runSys(cfg *runCfg, g *gen, n int) (cases []string, dist map[string]int, fa
 		}
 		for i := 0; i < np; i++ {
 			stubs[i].mu.Lock()
-			stubs[i].sc, stubs[i].onlyOp = nil, ""
+			stubs[i].sc, stubs[i].onlyOp, stubs[i].token = nil, "", ""
 			stubs[i].mu.Unlock()
 		}
 		var eff []string
@@ -501,7 +501,7 @@ func runSys(cfg *runCfg, g *gen, n int) (cases []string, dist map[string]int, fa
 	for k := 0; k < nNotify; k++ {
 		for i := 0; i < 2; i++ {
 			stubs[i].mu.Lock()
-			stubs[i].sc, stubs[i].onlyOp, stubs[i].notes = nil, "none", nil
+			stubs[i].sc, stubs[i].onlyOp, stubs[i].notes, stubs[i].token = nil, "none", nil, fmt.Sprintf("n%d", k)
 			// in two thirds of the sessions some notifications are answered with a failure: a close
 			// notification is not a gate, the others must still be delivered, to every plugin
 			stubs[i].noteFail = 0
@@ -526,12 +526,12 @@ func runSys(cfg *runCfg, g *gen, n int) (cases []string, dist map[string]int, fa
 		}
 		var entries []cfgEntry
 		if two {
-			entries = append(entries, cfgEntry{name: nm, omitName: om, addr: "http://" + stubs[1].addr, ops: []string{"CloseProxy", "Ping"}})
+			entries = append(entries, cfgEntry{name: nm, omitName: om, addr: "http://" + stubs[1].addr, path: fmt.Sprintf("/handler/n%d", k), ops: []string{"CloseProxy", "Ping"}})
 		}
-		entries = append(entries, cfgEntry{name: nm, omitName: om, addr: "http://" + stubs[0].addr, ops: []string{"NewProxy", "CloseProxy"}})
-		entries = append(entries, cfgEntry{name: nm, omitName: om, addr: "http://" + stubs[2].addr, ops: []string{"Login"}})
+		entries = append(entries, cfgEntry{name: nm, omitName: om, addr: "http://" + stubs[0].addr, path: fmt.Sprintf("/handler/n%d", k), ops: []string{"NewProxy", "CloseProxy"}})
+		entries = append(entries, cfgEntry{name: nm, omitName: om, addr: "http://" + stubs[2].addr, path: fmt.Sprintf("/handler/n%d", k), ops: []string{"Login"}})
 		stubs[2].mu.Lock()
-		stubs[2].sc, stubs[2].onlyOp, stubs[2].notes = nil, "none", nil
+		stubs[2].sc, stubs[2].onlyOp, stubs[2].notes, stubs[2].token = nil, "none", nil, fmt.Sprintf("n%d", k)
 		stubs[2].mu.Unlock()
 		srv, e := startFromConfigFile(sysAddr, entries, false, g.chance(0.35))
 		if e != nil {
@@ -672,10 +672,11 @@ func runSys(cfg *runCfg, g *gen, n int) (cases []string, dist map[string]int, fa
 	}
 	for i := range stubs {
 		stubs[i].mu.Lock()
-		stubs[i].sc, stubs[i].onlyOp = nil, ""
+		stubs[i].sc, stubs[i].onlyOp, stubs[i].token = nil, "", ""
 		stubs[i].mu.Unlock()
 	}
 	dist["sys-quirk:refusal-with-empty-reason-shown-as-success-to-client"] = quirk
+	defer func() { dist["late-requests-booked-to-their-own-earlier-case"] = int(foreignRequests.Load()) }()
 
 	sr := <-slowDone
 	cases = append(cases, sr.Cases...)
@@ -715,14 +716,14 @@ func slowNotifyChain() (res sysResult) {
 	defer slow.srv.Close()
 	defer fast.srv.Close()
 	slow.mu.Lock()
-	slow.onlyOp, slow.noteDelay = "none", 5500*time.Millisecond
+	slow.onlyOp, slow.noteDelay, slow.token = "none", 5500*time.Millisecond, "slow"
 	slow.mu.Unlock()
 	fast.mu.Lock()
-	fast.onlyOp = "none"
+	fast.onlyOp, fast.token = "none", "slow"
 	fast.mu.Unlock()
 	srv, e := startFromConfigFileWith(sysAddr, []cfgEntry{
-		{name: "slow", addr: "http://" + slow.addr, ops: []string{"CloseProxy"}},
-		{name: "fast", addr: "http://" + fast.addr, ops: []string{"CloseProxy"}}}, false, false, 10, nil, false)
+		{name: "slow", addr: "http://" + slow.addr, path: "/handler/slow", ops: []string{"CloseProxy"}},
+		{name: "fast", addr: "http://" + fast.addr, path: "/handler/slow", ops: []string{"CloseProxy"}}}, false, false, 10, nil, false)
 	if e != nil {
 		res.Fails = append(res.Fails, map[string]string{"key": "harness:slow-notify-setup", "what": e.Error(), "case": ""})
 		return
